@@ -51,7 +51,7 @@ def _relevant(item):
 
 
 def _outcome(run, k):
-    ma = run.ma(("LA;", "m%d" % k, "()V"))
+    ma = run.ma(run.gen(k))
     if ma is None:
         return None
     cca = run.dx.get_class_analysis("LA;")
